@@ -7,6 +7,7 @@ import (
 	"math/big"
 	"runtime"
 	"sort"
+	"strings"
 	"sync"
 	"testing"
 	"testing/synctest"
@@ -669,10 +670,24 @@ func execC13Batch(p *C13Plan, col *kernel.Collector) []kernel.Violation {
 			return vs
 		}
 	}
-	if n := runtime.NumGoroutine(); n > base {
-		vs = append(vs, kernel.Violation{Class: "verifier-goroutines-left-behind", Detail: fmt.Sprintf("%d goroutines before VerifyHeaders, %d after abort was closed and every worker released", base, n)})
+	// no verifier goroutine (worker or coordinator) may survive: counted by their
+	// stack frames, so that unrelated goroutines of the process cannot interfere
+	left := 0
+	for try := 0; try < 20; try++ {
+		buf := make([]byte, 1<<20)
+		dump := string(buf[:runtime.Stack(buf, true)])
+		left = strings.Count(dump, "aquahash.(*Aquahash).VerifyHeaders.func")
+		if left == 0 {
+			break
+		}
+		time.Sleep(time.Millisecond)
+		synctest.Wait()
+	}
+	if left > 0 {
+		vs = append(vs, kernel.Violation{Class: "verifier-goroutines-left-behind", Detail: fmt.Sprintf("%d verifier goroutines still exist after abort was closed, every worker released and all results drained", left)})
 		return vs
 	}
+	_ = base
 	kernel.SetNonTrivial()
 	return vs
 }
